@@ -393,6 +393,7 @@ def main():
 
     n_cmp = n_evalfail = 0
     corr_bug = None
+    repaired = set()
     for ci, c in enumerate(cases):
         jc = jsonable(c)
         r = ires[ci]
@@ -482,7 +483,11 @@ def main():
                     ck.report(f"C10.{routine}.value", f"{routine}(num={num}) differs from the formal series solution: {mism_s}; order {k}, d={d}, "
                               f"time-dependent={c['timedep']}, tree={jc.get('tree')}",
                               dict(replay, expected=[[str(x) for x in v] for v in exp_spec]))
-            if mism_m and not mism_s and corr_bug is None:
+            if mism_m and not mism_s and routine in ("via_jvp", "doubling") and c["timedep"]:
+                # the implementation differentiates t as well (e.g. the repair modelled by via_jvp_fixed_model, proved
+                # correct in C10_via_jvp_with_time_tangent_is_correct): the as-coded model is out of date, not the code
+                repaired.add(routine)
+            elif mism_m and not mism_s and corr_bug is None:
                 corr_bug = (replay, f"{routine}(num={num}): implementation agrees with the specification but not with the Coq model: {mism_m}")
             # the theorems say the scan / unroll models equal the specification: cross-check the evaluation
             if m is not None and routine in ("padded_scan", "unroll") and m != exp_spec and corr_bug is None:
@@ -490,6 +495,10 @@ def main():
             if m is not None and routine in ("via_jvp", "doubling") and not c["timedep"] and m != exp_spec and corr_bug is None:
                 corr_bug = (replay, f"model of {routine} differs from the specification on an autonomous field")
 
+    for routine in sorted(repaired):
+        ck.notes.append(f"{routine}: the implementation returns the exact derivatives for time-dependent fields, i.e. it no longer closes "
+                        f"over t; Model/Jet.v {routine}_model (which closes over t) is out of date -- switch the model to the repaired "
+                        "recursion (via_jvp_fixed_model, proved correct for every field)")
     ck.hist["compared"] = {"n": n_cmp}
     ck.hist["model_eval_failed"] = {"n": n_evalfail}
     if n_evalfail:
